@@ -15,12 +15,12 @@ ASSUMPTIONS = ["documented id layout is the specification (refids.parent/childre
 REQUIRED_CLASSES = {"must_merge": ("hyp", 0.3), "res0_of_face0-2_with_finer_cells": ("hyp", 0.03)}
 
 
-def judge_cells(cells, case, orderings=()):
+def judge_cells(cells, case, orderings=(), sorted_too=True):
     import a5
     ref = refids.ref_compact(cells)
     outs = []
-    # numerically sorted inputs are a natural special case for an implementation (fast paths): always included
-    special = [sorted(set(cells)), sorted(cells, reverse=True)]
+    # numerically sorted inputs are a natural special case for an implementation (fast paths): included by default
+    special = [sorted(set(cells)), sorted(cells, reverse=True)] if sorted_too else []
     for arg in (cells,) + tuple(orderings) + tuple(x for x in special if x != cells):
         try:
             out = a5.compact(list(arg))
@@ -69,7 +69,8 @@ def stage_enum(ctx):
     for cells in antichain_enum.enumerate_shard(ctx.tier, ctx.shard, ctx.nshards):
         case = {"cells": [hex(c) for c in cells]}
         # reversed order as the metamorphic partner (cheap) on every case
-        ref = judge_cells(cells, case, (cells[::-1],))
+        # thorough enumerates 7.2 M antichains: the sorted orderings are added for every 8th of them there
+        ref = judge_cells(cells, case, (cells[::-1],), sorted_too=(ctx.tier == "quick" or n % 8 == 0))
         n += 1
         _cls, isnt = classify(cells, ref)
         nt += isnt
